@@ -49,8 +49,16 @@ template <typename T> static Bytes Ser(const T& t)
 static Bytes SerBlock(const CBlock& b) { return Ser(TX_WITH_WITNESS(b)); }
 static Bytes ReadFile(const fs::path& p)
 {
-    std::ifstream f(fs::PathToString(p), std::ios::binary);
-    return Bytes((std::istreambuf_iterator<char>(f)), std::istreambuf_iterator<char>());
+    Bytes b;
+    FILE* f = fopen(fs::PathToString(p).c_str(), "rb");
+    if (!f) return b;
+    fseek(f, 0, SEEK_END);
+    long n = ftell(f);
+    fseek(f, 0, SEEK_SET);
+    b.resize(n > 0 ? (size_t)n : 0);
+    if (n > 0 && fread(b.data(), 1, (size_t)n, f) != (size_t)n) b.clear();
+    fclose(f);
+    return b;
 }
 static void WriteFile(const fs::path& p, const Bytes& b)
 {
@@ -576,6 +584,7 @@ struct PartB {
             if (!blk_pristine.count(bp.nFile)) blk_pristine[bp.nFile] = ReadFile(File(false, bp.nFile));
             if (!rev_pristine.count(up.nFile)) rev_pristine[up.nFile] = ReadFile(File(true, up.nFile));
         };
+        if (!n.chainman().m_blockman.m_opts.fast_prune) throw std::runtime_error("C17: -fastprune not in effect");
         add("mid50", hs[49], false);
         add("x1", x1, true);
         add("x2", x2, true);
@@ -680,29 +689,43 @@ struct PartB {
         }
     }
 
+    bool PrepareWorker(const fs::path& dir)
+    {
+        n.RepointBlocksDir(dir);
+        return n.Invalidate(x1) && n.tip()->GetBlockHash() == L.blocks.at(x1).prev;
+    }
     // connection test, runs in a throw-away fork of the node
     void ConnectJob(const Fault& f, fp::Out& out, const fs::path& scratch)
     {
         const Rec& r = recs[f.rec];
         (void)scratch;
-        const bool tr = getenv("C17_TRACE");
-        if (const char* a = getenv("C17_ALARM")) ualarm(atoi(a), 0);
-        if (tr) fprintf(stderr, "[%d] job start %.3f\n", (int)getpid(), vx::elapsed());
-        // the worker owns a private copy of the block files (made in on_worker_start); start from intact bytes
+        // the worker owns a private copy of the block files and has already disconnected X1/X2 with intact
+        // files (PrepareWorker); start from intact bytes, inject the fault, let ReconsiderBlock re-read from disk
+        // Jobs run one after another in the worker: every job starts from (tip = parent of X1, X1/X2 stored
+        // intact, no shutdown requested) and re-establishes that state at its end.
         FileMut fm;
-        if (tr) fprintf(stderr, "[%d] before open %.4f\n", (int)getpid(), vx::elapsed());
         fm.Open(File(false, r.file), blk_pristine[r.file]);
-        if (tr) fprintf(stderr, "[%d] opened %.4f size=%zu\n", (int)getpid(), vx::elapsed(), blk_pristine[r.file].size());
         fm.Heal();
-        if (tr) fprintf(stderr, "[%d] healed %.4f\n", (int)getpid(), vx::elapsed());
-        if (!n.Invalidate(x1) || n.tip()->GetBlockHash() != L.blocks.at(x1).prev) {
-            out.violation("B-harness-invalidate", "could not disconnect X1/X2 with intact files", FaultStr(recs, f));
-            return;
-        }
         fm.Apply(r, f);
-        fm.Close();
-        if (tr) { timespec ts; clock_gettime(CLOCK_PROCESS_CPUTIME_ID, &ts); struct rusage ru; getrusage(RUSAGE_SELF, &ru); fprintf(stderr, "[%d] invalidated %.3f cpu=%.3f minflt=%ld utime=%.3f stime=%.3f\n", (int)getpid(), vx::elapsed(), ts.tv_sec + ts.tv_nsec * 1e-9, ru.ru_minflt, ru.ru_utime.tv_sec + ru.ru_utime.tv_usec * 1e-6, ru.ru_stime.tv_sec + ru.ru_stime.tv_usec * 1e-6); }
+        (void)n.m_interrupt.reset();
         n.Reconsider(x1);
+        struct Restore {
+            PartB& b; FileMut& fm; fp::Out& out; std::string what;
+            ~Restore()
+            {
+                fm.Heal();
+                fm.Close();
+                (void)b.n.m_interrupt.reset();
+                if (b.n.tip()->GetBlockHash() != b.L.blocks.at(b.x1).prev) {
+                    if (!b.n.Invalidate(b.x1) || b.n.tip()->GetBlockHash() != b.L.blocks.at(b.x1).prev) {
+                        out.violation("B-harness-restore", "cannot re-establish the base state after " + what, what);
+                        out.send_counts();
+                        out.flush();
+                        _exit(8);
+                    }
+                }
+            }
+        } restore{*this, fm, out, FaultStr(recs, f)};
         bool active;
         int h;
         unsigned status;
@@ -723,7 +746,7 @@ struct PartB {
                 const CBlock& ob = L.blocks.at(r.hash).block;
                 unsigned cb_size = GetSerializeSize(TX_WITH_WITNESS(*ob.vtx[0]));
                 if (rel >= 89 && rel < 89 + cb_size) sub = "coinbase";
-                out.violation(strprintf("B-corrupted-block-connected:%s:%s", r.name, sub), "a block whose stored transaction bytes were corrupted became part of the active chain: " + fs_ + " (tip height " + std::to_string(h) + ")", "partB xor=" + std::to_string(use_xor) + "\nfault: " + fs_ + "\nthen: InvalidateBlock(X1) with intact files, corrupt, ReconsiderBlock(X1)");
+                out.violation(strprintf("B-corrupted-block-connected:%s:%s", r.name, sub), "a block whose stored transaction bytes were corrupted became part of the active chain: " + fs_ + " (tip height " + std::to_string(h) + ")", "partB xor=" + std::to_string(use_xor) + "\nfault: " + fs_ + "\nsequence: InvalidateBlock(X1) with intact files, corrupt the file, ReconsiderBlock(X1)");
             }
             out.count("B_connect_connected_same", same);
         } else {
@@ -734,7 +757,6 @@ struct PartB {
         }
         out.count("B_connect_tests");
         out.count(strprintf("B_tip_after_%d", h));
-        if (tr) fprintf(stderr, "[%d] job end %.3f\n", (int)getpid(), vx::elapsed());
     }
 };
 
@@ -771,29 +793,13 @@ int main(int argc, char** argv)
         printf("t=%.1f readlevel done, %zu connect jobs\n", vx::elapsed(), b.connect_jobs.size());
         {
             fp::Pool pool;
-            pool.isolate_jobs = true;
             pool.workers = 8;
-            pool.on_worker_start = [&](unsigned) { node.RepointBlocksDir(scratch / fs::u8path(strprintf("c%d", (int)getpid()))); };
+            pool.on_worker_start = [&](unsigned) {
+                if (!b.PrepareWorker(scratch / fs::u8path(strprintf("c%d", (int)getpid())))) { fprintf(stderr, "C17: cannot disconnect X1/X2 with intact files\n"); _exit(9); }
+            };
             pool.on_worker_end = [&](unsigned) { fs::remove_all(node.BlocksDir()); };
-            if (getenv("C17_FORKTIME")) {
-                double t0 = vx::elapsed();
-                for (int i = 0; i < 50; i++) { pid_t g = fork(); if (g == 0) _exit(0); int st; waitpid(g, &st, 0); }
-                printf("50 fork+exit: %.3f s\n", vx::elapsed() - t0);
-                std::ifstream st("/proc/self/status"); std::string l; while (std::getline(st, l)) if (l.rfind("Vm", 0) == 0 || l.rfind("Threads", 0) == 0) printf("%s\n", l.c_str());
-                return 0;
-            }
-            if (getenv("C17_ONEJOB")) {
-                node.RepointBlocksDir(scratch / "one");
-                fp::Out o; o.fd = 1;
-                if (getenv("C17_ONEJOB_FORK")) { pid_t g = fork(); if (g != 0) { int st; waitpid(g, &st, 0); return 0; } }
-                if (getenv("C17_ONEJOB_FORK2")) { pid_t g = fork(); if (g != 0) { int st; waitpid(g, &st, 0); _exit(0); } }
-                double t0 = vx::elapsed();
-                b.ConnectJob(b.connect_jobs[0], o, scratch);
-                printf("one job took %.3f s\n", vx::elapsed() - t0);
-                o.send_counts(); o.flush();
-                return 0;
-            }
             if (getenv("C17_SKIP_CONNECT")) b.connect_jobs.clear();
+            if (!big && !use_xor) b.connect_jobs.clear(); // quick tier: connection tests on the XOR-key node only (obfuscation is below ReadBlock)
             pool.run(
                 b.connect_jobs.size(), [&](uint64_t j, fp::Out& out) { b.ConnectJob(b.connect_jobs[j], out, scratch); },
                 [&](uint64_t j) { return "partB connect test xor=" + std::to_string(use_xor) + " " + FaultStr(b.recs, b.connect_jobs[j]); });
@@ -806,6 +812,20 @@ int main(int argc, char** argv)
 
         printf("t=%.1f connect done\n", vx::elapsed());
         // ---- Part A (depth by depth so that a deadline leaves a completed bound)
+        if (getenv("C17_PROFILE")) {
+            PartA a(node, scratch / "prof", use_xor);
+            fp::Out o; o.fd = 1;
+            std::vector<std::vector<int>> hs = {{W_TINY}, {W_MID, U_BIG}, {W_OVER, U_HUGE, W_FIT}, {W_MID, W_MID, W_MID, W_SPILL, U_EMPTY, PRUNE}};
+            for (auto& h : hs) {
+                for (int v = 0; v < 2; v++) {
+                    timespec t0, t1; clock_gettime(CLOCK_PROCESS_CPUTIME_ID, &t0);
+                    for (int i = 0; i < 50; i++) a.Execute(h, o, v);
+                    clock_gettime(CLOCK_PROCESS_CPUTIME_ID, &t1);
+                    printf("history [%s] verify=%d: %.3f ms cpu each\n", HistStr(h).c_str(), v, ((t1.tv_sec - t0.tv_sec) + (t1.tv_nsec - t0.tv_nsec) * 1e-9) * 1000 / 50);
+                }
+            }
+            return 0;
+        }
         if (getenv("C17_SKIP_A")) continue;
         int maxd = big ? 5 : 3;
         if (const char* e = getenv("C17_DEPTH")) maxd = atoi(e);
